@@ -1143,13 +1143,11 @@ fn pcf_map(schema: &Map<String, JsonValue>, defined_names: &mut HashSet<String>)
 
         // Strip off quotes surrounding "size" type, if they exist ([INTEGERS] rule).
         if k == "size" || k == "precision" || k == "scale" {
-            let i = match v.as_str() {
-                Some(s) => s
-                    .parse::<i64>()
-                    .expect("Only valid schemas are accepted!")
-                    .to_string(),
-                // an unsigned JSON integer (a `fixed` size above i64::MAX) prints as itself
-                None => v.to_string(),
+            let i = match v.as_str().map(|s| s.parse::<i64>()) {
+                Some(Ok(i)) => i.to_string(),
+                // an unsigned JSON integer (a `fixed` size above i64::MAX) prints as itself, and so
+                // does a custom attribute of that name that holds something else ("size": "big")
+                _ => v.to_string(),
             };
             fields.push((k, format!("{}:{}", pcf_string(k), i)));
             continue;
